@@ -9,7 +9,7 @@ use qmc::sse::*;
 use serde_json::json;
 use std::panic::{catch_unwind, AssertUnwindSafe};
 
-fn legal_ising(spec: &IsingSpec, sl: &Slots) -> Option<String> {
+pub fn legal_ising(spec: &IsingSpec, sl: &Slots) -> Option<String> {
     for (p, o) in sl.iter().enumerate() {
         if let Some(o) = o {
             if o.bond >= spec.nbonds() {
